@@ -94,6 +94,8 @@ func (c16RT) RoundTrip(req *http.Request) (*http.Response, error) {
 }
 
 type c16Cfg struct {
+	asset    string // asset path below the VoD root ("" = testpic_2s)
+	segMS    int    // segment duration in ms (0 = 2000)
 	name     string
 	prefix   string // URL configuration part, e.g. "segtimeline_1/"
 	mpd      string
@@ -104,11 +106,27 @@ type c16Cfg struct {
 	pass     string
 }
 
-func (c c16Cfg) livesimURL() string { return "/livesim2/" + c.prefix + "testpic_2s/" + c.mpd }
+func (c c16Cfg) assetPath() string {
+	if c.asset == "" {
+		return "testpic_2s"
+	}
+	return c.asset
+}
+
+func (c c16Cfg) segDurMS() int64 {
+	if c.segMS == 0 {
+		return c16SegMS
+	}
+	return int64(c.segMS)
+}
+
+func (c c16Cfg) livesimURL() string { return "/livesim2/" + c.prefix + c.assetPath() + "/" + c.mpd }
 
 type c16Rep struct {
 	id    string
 	ctype string
+	media string // media template of the live MPD
+	init  string
 }
 
 const c16SegMS = 2000
@@ -147,7 +165,12 @@ func (e *c16Env) repsOf(c c16Cfg) ([]c16Rep, error) {
 			if ct == "application" {
 				ct = "text"
 			}
-			out = append(out, c16Rep{rp.ID, ct})
+			st := as.Template(&rp)
+			r := c16Rep{id: rp.ID, ctype: ct}
+			if st != nil {
+				r.media, r.init = st.Media, st.Initialization
+			}
+			out = append(out, r)
 		}
 	}
 	e.reps[u] = out
@@ -156,8 +179,16 @@ func (e *c16Env) repsOf(c c16Cfg) ([]c16Rep, error) {
 
 // ref returns what livesim2 itself serves for the segment addressed by addr (number or time).
 func (e *c16Env) ref(c c16Cfg, rep string, addr uint64, nr uint32) ([]byte, int) {
-	late := (int64(nr)+1)*c16SegMS + 4000
-	u := fmt.Sprintf("/livesim2/%stestpic_2s/%s/%d.m4s?nowMS=%d", c.prefix, rep, addr, late)
+	late := (int64(nr)+1)*c.segDurMS() + 4000
+	name := fmt.Sprintf("%s/%d.m4s", rep, addr)
+	if reps, err := e.repsOf(c); err == nil {
+		for _, r := range reps {
+			if r.id == rep && r.media != "" {
+				name = vref.ExpandURL(r.media, rep, 0, int64(addr), addr)
+			}
+		}
+	}
+	u := fmt.Sprintf("/livesim2/%s%s/%s?nowMS=%d", c.prefix, c.assetPath(), name, late)
 	if b, ok := e.refs[u]; ok {
 		return b, 200
 	}
@@ -170,11 +201,19 @@ func (e *c16Env) ref(c c16Cfg, rep string, addr uint64, nr uint32) ([]byte, int)
 }
 
 func (e *c16Env) servedInit(c c16Cfg, rep string) (vref.Init, bool) {
-	k := c.prefix + "|" + rep
+	k := c.prefix + "|" + c.assetPath() + "|" + rep
 	if in, ok := e.inits[k]; ok {
 		return in, true
 	}
-	r := vGet(e.srv, fmt.Sprintf("/livesim2/%stestpic_2s/%s/init.mp4?nowMS=100000", c.prefix, rep))
+	name := rep + "/init.mp4"
+	if reps, err := e.repsOf(c); err == nil {
+		for _, r := range reps {
+			if r.id == rep && r.init != "" {
+				name = vref.ExpandURL(r.init, rep, 0, 0, 0)
+			}
+		}
+	}
+	r := vGet(e.srv, fmt.Sprintf("/livesim2/%s%s/%s?nowMS=100000", c.prefix, c.assetPath(), name))
 	if r.Code != 200 {
 		return vref.Init{}, false
 	}
@@ -265,6 +304,8 @@ func (e *c16Env) create(s *vrt.Sched, c c16Cfg, dest string, testNow, dur *int) 
 // firstNr: the first segment that is not yet available at nowMS.
 func c16FirstNr(nowMS int64, atoMS int) int64 { return (nowMS + int64(atoMS)) / c16SegMS }
 
+func (c c16Cfg) firstNr(nowMS int64, atoMS int) int64 { return (nowMS + int64(atoMS)) / c.segDurMS() }
+
 func (e *c16Env) step(ss *c16Session) bool {
 	code, _ := e.api("GET", "/api/cmaf-ingests/"+ss.id+"/step", nil)
 	if code == 200 {
@@ -323,6 +364,7 @@ func (ss *c16Session) endpoint(path string, reps []c16Rep) (rep c16Rep, isInit b
 
 type c16Want struct {
 	exactMedia int  // -1 = no exact count
+	exactHi    int  // if > exactMedia: any count in [exactMedia, exactHi] is accepted (duration not a multiple of the segment duration)
 	lastMarked bool // the last media segment must carry lmsg
 	stopped    bool // the session must have ended
 	noDevsOnly bool // exact count only holds when the receiver answered 200 throughout
@@ -492,7 +534,7 @@ func (e *c16Env) check(s *vrt.Sched, ss *c16Session, want c16Want, tag string) {
 		counts[id] = nMedia
 		if want.exactMedia >= 0 && (!want.noDevsOnly || rc.initDevs == 0) {
 			e.rep.Hit("C16.count")
-			if nMedia != want.exactMedia {
+			if nMedia != want.exactMedia && !(want.exactHi > want.exactMedia && nMedia > want.exactMedia && nMedia <= want.exactHi) {
 				fail("C16.count", fmt.Sprintf("media-%+d", nMedia-want.exactMedia), fmt.Sprintf("endpoint %s received %d media segments, expected %d (%s)", id, nMedia, want.exactMedia, tag))
 			}
 		}
@@ -588,6 +630,10 @@ func TestVerifC16(t *testing.T) {
 		{name: "tltime-streams-auth", prefix: "segtimeline_1/", mpd: "Manifest.mpd", timeAddr: true, streams: true, user: "u", pass: "p"},
 		{name: "number-auth", prefix: "", mpd: "Manifest.mpd", user: "user", pass: "secret"},
 		{name: "number-useronly", prefix: "", mpd: "Manifest.mpd", user: "user"},
+		{name: "tltime-timesubs", prefix: "segtimeline_1/timesubsstpp_en,sv/", mpd: "Manifest.mpd", timeAddr: true},
+		{name: "wave2997-number", asset: "WAVE/vectors/cfhd_sets/14.985_29.97_59.94/t1/2022-10-17", segMS: 2002, mpd: "stream.mpd"},
+		{name: "wave2997-tltime", asset: "WAVE/vectors/cfhd_sets/14.985_29.97_59.94/t1/2022-10-17", segMS: 2002, prefix: "segtimeline_1/", mpd: "stream.mpd", timeAddr: true},
+		{name: "testpic8s-number", asset: "testpic_8s", segMS: 8000, mpd: "Manifest.mpd"},
 	}
 	const rtStartMS = int64(1_700_000_000_700)
 
@@ -629,7 +675,7 @@ func TestVerifC16(t *testing.T) {
 						s.Fail("setup", err.Error())
 						return
 					}
-					ss.firstLo, ss.firstHi = c16FirstNr(int64(now), 0), c16FirstNr(int64(now), c.atoMS)
+					ss.firstLo, ss.firstHi = c.firstNr(int64(now), 0), c.firstNr(int64(now), c.atoMS)
 					for i := 0; i < k; i++ {
 						e.stepAsync(s, ss)
 						e.check(s, ss, c16Want{exactMedia: i + 1, noDevsOnly: true}, fmt.Sprintf("after-step-%d", i+1))
@@ -648,7 +694,7 @@ func TestVerifC16(t *testing.T) {
 				s.Fail("setup", err.Error())
 				return
 			}
-			ss.firstLo, ss.firstHi = c16FirstNr(10000, 0), c16FirstNr(10000, c.atoMS)
+			ss.firstLo, ss.firstHi = c.firstNr(10000, 0), c.firstNr(10000, c.atoMS)
 			vrt.Go(func() { // a step after the session has ended blocks for ever: daemon
 				e.step(ss)
 				e.step(ss)
@@ -666,7 +712,7 @@ func TestVerifC16(t *testing.T) {
 					s.Fail("setup", err.Error())
 					return
 				}
-				ss.firstLo, ss.firstHi = c16FirstNr(10000, 0), c16FirstNr(10000, c.atoMS)
+				ss.firstLo, ss.firstHi = c.firstNr(10000, 0), c.firstNr(10000, c.atoMS)
 				h := s.Spawn("info", func() {
 					for i := 0; i < 2; i++ {
 						if code, _ := e.api("GET", "/api/cmaf-ingests/"+ss.id, nil); code != 200 {
@@ -693,7 +739,7 @@ func TestVerifC16(t *testing.T) {
 							s.Fail("C16.api:create", err.Error())
 							return
 						}
-						ss.firstLo, ss.firstHi = c16FirstNr(int64(10000+2000*i), 0), c16FirstNr(int64(10000+2000*i), c.atoMS)
+						ss.firstLo, ss.firstHi = c.firstNr(int64(10000+2000*i), 0), c.firstNr(int64(10000+2000*i), c.atoMS)
 						sss[i] = ss
 						e.step(ss)
 						e.step(ss)
@@ -723,8 +769,8 @@ func TestVerifC16(t *testing.T) {
 					s.Fail("setup", err.Error())
 					return
 				}
-				ss.firstLo = c16FirstNr(rtStartMS, 0)
-				ss.firstHi = c16FirstNr(rtStartMS+after, c.atoMS) + 1
+				ss.firstLo = c.firstNr(rtStartMS, 0)
+				ss.firstHi = c.firstNr(rtStartMS+after, c.atoMS) + 1
 				s.Sleep(after * 1e6)
 				if code := e.del(ss); code != 200 {
 					s.Fail("C16.delete:status", fmt.Sprintf("DELETE answered %d", code))
@@ -746,20 +792,42 @@ func TestVerifC16(t *testing.T) {
 					s.Fail("setup", err.Error())
 					return
 				}
-				ss.firstLo = c16FirstNr(rtStartMS, 0)
+				ss.firstLo = c.firstNr(rtStartMS, 0)
 				ss.firstHi = ss.firstLo + 2
 				s.Sleep(int64(d+14) * 1000 * 1e6)
 				s.Settle()
-				e.check(s, ss, c16Want{exactMedia: d * 1000 / c16SegMS, lastMarked: true, stopped: true, noDevsOnly: true}, "duration")
-				finish(e, s, ss, c16Want{exactMedia: d * 1000 / c16SegMS, lastMarked: true, noDevsOnly: true}, "duration-end")
+				lo := d * 1000 / int(c.segDurMS())
+				hi := (d*1000 + int(c.segDurMS()) - 1) / int(c.segDurMS())
+				e.check(s, ss, c16Want{exactMedia: lo, exactHi: hi, lastMarked: true, stopped: true, noDevsOnly: true}, "duration")
+				finish(e, s, ss, c16Want{exactMedia: lo, exactHi: hi, lastMarked: true, noDevsOnly: true}, "duration-end")
 			})
+			if d == 4 {
+				// a session of exactly one segment that starts inside the very first segment of the stream (last number 0)
+				add("steps-duration-one-segment@first", c, false, func(e *c16Env, s *vrt.Sched, c c16Cfg) {
+					one := int(c.segDurMS()+999) / 1000
+					ss, err := e.create(s, c, "p8", c16P(int(c.segDurMS()/2)), c16P(one))
+					if err != nil {
+						s.Fail("setup", err.Error())
+						return
+					}
+					ss.firstLo, ss.firstHi = 0, c.firstNr(c.segDurMS()/2, c.atoMS)
+					vrt.Go(func() {
+						for i := 0; i < 3; i++ {
+							e.step(ss)
+						}
+					})
+					s.Sleep(int64(one+10) * 1000 * 1e6)
+					s.Settle()
+					e.check(s, ss, c16Want{exactMedia: one * 1000 / int(c.segDurMS()), exactHi: (one*1000 + int(c.segDurMS()) - 1) / int(c.segDurMS()), lastMarked: true, stopped: true}, "one-segment")
+				})
+			}
 			add(fmt.Sprintf("steps-duration-%d", d), c, false, func(e *c16Env, s *vrt.Sched, c c16Cfg) {
 				ss, err := e.create(s, c, "p7", c16P(10000), c16P(d))
 				if err != nil {
 					s.Fail("setup", err.Error())
 					return
 				}
-				ss.firstLo, ss.firstHi = c16FirstNr(10000, 0), c16FirstNr(10000, c.atoMS)
+				ss.firstLo, ss.firstHi = c.firstNr(10000, 0), c.firstNr(10000, c.atoMS)
 				vrt.Go(func() {
 					for i := 0; i < d/2+2; i++ {
 						e.step(ss)
@@ -767,7 +835,7 @@ func TestVerifC16(t *testing.T) {
 				})
 				s.Sleep(int64(d+8) * 1000 * 1e6)
 				s.Settle()
-				e.check(s, ss, c16Want{exactMedia: d * 1000 / c16SegMS, lastMarked: true, stopped: true}, "step-duration")
+				e.check(s, ss, c16Want{exactMedia: d * 1000 / int(c.segDurMS()), exactHi: (d*1000 + int(c.segDurMS()) - 1) / int(c.segDurMS()), lastMarked: true, stopped: true}, "step-duration")
 			})
 		}
 	}
